@@ -199,6 +199,8 @@ static int HIextend_file(filerec_t *file_rec);
 
 static void HIrefresh_new(accrec_t *access_rec);
 
+static int HIcompare_accrec_fid(const void *obj, const void *key);
+
 static funclist_t *HIget_function_table(accrec_t *access_rec);
 
 static int HIupdate_version(int32);
@@ -414,6 +416,16 @@ done:
 } /* Hopen */
 
 /*--------------------------------------------------------------------------
+ HIcompare_accrec_fid -- HAsearch_atom callback: was this access record
+ started through the file id 'key' points to?
+--------------------------------------------------------------------------*/
+static int
+HIcompare_accrec_fid(const void *obj, const void *key)
+{
+    return ((const accrec_t *)obj)->file_id == *(const int32 *)key;
+} /* HIcompare_accrec_fid */
+
+/*--------------------------------------------------------------------------
 NAME
    Hclose -- close HDF file
 USAGE
@@ -440,6 +452,15 @@ Hclose(int32 file_id)
     file_rec = HIfid2rec(file_id);
     if (BADFREC(file_rec))
         HGOTO_ERROR(DFE_ARGS, FAIL);
+
+    /* An access element that was started through THIS file id must be ended
+       first, also when other ids keep the file open: once the id is gone the
+       element can neither be used nor ended, and its count in 'attach' would
+       keep the file from ever being closed. */
+    if (HAsearch_atom(AIDGROUP, HIcompare_accrec_fid, &file_id) != NULL) {
+        HEreport("There are still active aids attached through this file id");
+        HGOTO_ERROR(DFE_OPENAID, FAIL);
+    } /* end if */
 
     /* version tags */
     if ((file_rec->refcount > 0) && (file_rec->version.modified == 1))
